@@ -205,6 +205,8 @@ def run_child_cases(exe, scenario, seed, tier, shard, nshards, extra=None, timeo
         if pending is None:
             # died outside any case (start-up, summary) -> harness problem, not a verdict
             notes.append("child %s ended with %s outside any case: %s" % (scenario, "timeout" if timed_out else signame(rc), err[-300:]))
+            # the cases this shard did not get to are undecided: say so in the verdict counts, not only in a note
+            cases.append({"t": "outcome", "i": -7 - shard, "class": "harness/child-ended-outside-any-case", "verdict": "inconclusive", "sig": "child-ended-outside-any-case", "detail": {"status": "timeout" if timed_out else signame(rc), "stderr": err[-300:], "shard": shard}})
             if timed_out or restarts > 3:
                 break
             restarts += 1
